@@ -128,9 +128,13 @@ func gen(r *harn.Rng, tier string) interface{} {
 	authP := []float64{0, 0.05, 0.25}[r.Intn(3)]
 	attackP := []float64{0, 0.1, 0.4}[r.Intn(3)]
 	ord := 0
+	var hi uint64 // highest number handed to the detector so far (whoever sent it)
 	add := func(at int, seq uint64, why string) {
 		dl = append(dl, delivery{at: at, ord: ord, ev: event{Seq: seq, Accept: !r.Bool(authP), Why: why}})
 		ord++
+		if seq > hi && seq <= max {
+			hi = seq
+		}
 	}
 	for i := 0; i < n; i++ {
 		captured = append(captured, cur)
@@ -149,7 +153,14 @@ func gen(r *harn.Rng, tier string) interface{} {
 		}
 		if r.Bool(attackP) && len(captured) > 0 {
 			var s uint64
-			switch r.Intn(6) {
+			switch r.Intn(8) {
+			case 6, 7:
+				// just behind / at / just ahead of the highest number delivered so far, e.g. after
+				// an accepted forged number moved the window far ahead of the sender
+				s = hi - uint64(r.Intn(int(w)+3))
+				if r.Bool(0.2) {
+					s = hi + uint64(r.Intn(3))
+				}
 			case 0:
 				s = captured[0]
 			case 1:
@@ -171,8 +182,11 @@ func gen(r *harn.Rng, tier string) interface{} {
 			if hasM {
 				steps = append(steps, M/2-1, M/2, M/2+1, M/2-w, M/4, M-1)
 			}
+			if max >= 1<<63 {
+				steps = append(steps, 1<<63-1, 1<<63, 1<<63+5, 3<<62, 1<<62)
+			}
 			step = steps[r.Intn(len(steps))]
-			if step == 0 || step > 1<<63 {
+			if step == 0 || (step > 1<<63 && max < 1<<63) {
 				step = 1
 			}
 		}
